@@ -40,12 +40,17 @@ def t3(rep, tier, seed):
         for b1 in itertools.combinations_with_replacement(pool, k):
             for b2 in itertools.combinations_with_replacement(pool[:5], k):
                 dom.append({"b1": [list(x) for x in b1], "b2": [list(x) for x in b2][::-1]})
+    # five bins with many coinciding sums (where a de-duplication key that forgets multiplicities or order goes wrong)
+    pool5 = [[], [1], [2]] if tier == "quick" else [[], [1], [2], [1, 1]]
+    for b1 in itertools.combinations_with_replacement(pool5, 5):
+        for b2 in itertools.combinations_with_replacement(pool5, 5):
+            dom.append({"b1": [list(x) for x in b1], "b2": [list(x) for x in b2]})
     for _ in range(40 if tier == "quick" else 400):
         k = rng.randint(2, 5)
         dom.append({"b1": [[rng.randint(0, 9) for _ in range(rng.randint(0, 2))] for _ in range(k)],
                     "b2": [[rng.randint(0, 9) for _ in range(rng.randint(0, 2))] for _ in range(k)]})
     rep.add(H.run_case("C13/T3/all_combinations/exact", "prtpy/binners.py::all_combinations", T.c13_comb_case, dom,
-                       f"all pairs of bins-arrays with k<={KB} bins over a pool of 6 small bins + seeded random pairs up to 5 bins; both managers", chunk=64))
+                       f"all pairs of bins-arrays with k<={KB} bins over a pool of 6 small bins + all pairs of 5-bin arrays over a pool of 3 (4) small bins; seeded random pairs up to 5 bins; both managers", chunk=64))
 
 
 def run(rep, tier, seed):
